@@ -160,7 +160,7 @@ def c07(tier):
 def c13(tier):
     if tier == "quick":
         return [dict(model="elem", configs=cfgs(["heap8d", "heap3n"], (R,))), dict(model="iter", configs=cfgs(["heap8d", "heap3n"], (R,))),
-                dict(model="swap", configs=cfgs(["heap8d", "heap3n", "heap160"], (R,)))]
+                dict(model="swap", configs=cfgs(["heap8d", "heap3n", "heap160"], (R,))), rnd(tier, ["heap12d"])]
     return [dict(model="elem", configs=cfgs(["heap8d", "heap3n", "heap160", "heap0d"], (R, D))), dict(model="iter", configs=cfgs(["heap8d", "heap3n", "heap160"], (R, D))),
             dict(model="swap", configs=cfgs(["heap8d", "heap3n", "heap160", "heap12d", "stack24x3"], (R, D)))]
 
@@ -207,17 +207,19 @@ def c18(tier):
 
 def c08(tier):
     if tier == "quick":
-        return [dict(model="clone", configs=cfgs(["heap8c", "fence24d", "heap3c", "heap0c", "fenceover3c"], (R,))), dict(model="clonefixed", configs=cfgs(["stackn3", "stack8c"], (R,)))]
-    return [dict(model="clone", configs=cfgs(["heap8c", "heap3c", "heap0c", "heap8css", "heap160", "fence24d"], (R, D))),
+        return [dict(model="clone", configs=cfgs(["heap8c", "fence24d", "heap3c", "heap0c", "fenceover3c"], (R,))), dict(model="clonefixed", configs=cfgs(["stackn3", "stack8c"], (R,))),
+                rnd(tier, ["heap8c", "stack8c"])]
+    return [rnd(tier, ["heap8c", "heap3c", "stack8c", "fence24d", "fenceover3c"], nvecs=3), dict(model="clone", configs=cfgs(["heap8c", "heap3c", "heap0c", "heap8css", "heap160", "fence24d"], (R, D))),
             dict(model="clonefixed", configs=cfgs(["stackn3", "stack8c"], (R, D)))]
 def c09(tier):
     if tier == "quick":
-        return [dict(model="lazy", configs=cfgs(["heap8c", "heap160"], (R,))), dict(model="lazyf", configs=cfgs(["heap3c", "heap0c"], (R,)))]
+        return [dict(model="lazy", configs=cfgs(["heap8c", "heap160"], (R,))), dict(model="lazyf", configs=cfgs(["heap3c", "heap0c"], (R,))), rnd(tier, ["heap8c"])]
     return [dict(model="lazy", configs=cfgs(["heap8c", "heap160", "heap8css", "fence24d"], (R, D))), dict(model="clonefixed", configs=cfgs(["stackn3"], (R,)))]
 
 def c17(tier):
     if tier == "quick":
-        return [dict(model="raw", configs=cfgs(["heap8d", "heap8c", "heap0d"], (R,))), dict(model="rawempty", configs=cfgs(["empty8d", "empty0c"], (R,)))]
+        return [dict(model="raw", configs=cfgs(["heap8d", "heap8c", "heap0d"], (R,))), dict(model="rawempty", configs=cfgs(["empty8d", "empty0c"], (R,))),
+                rnd(tier, ["heap8c"])]
     return [dict(model="raw", configs=cfgs(["heap8d", "heap8c", "heap8css", "heap0d", "heap0c", "heap3n", "heap160"], (R, D))),
             dict(model="rawempty", configs=cfgs(["empty8d", "empty0c"], (R, D)))]
 def c04(tier):
